@@ -96,12 +96,17 @@ class DtdParser:
         Returns:
             The converted xsdata dtd attribute instance.
         """
+        default_value = attribute.default_value
+        if default_value:
+            # libxml2 keeps every ampersand of the value as a character reference
+            default_value = default_value.replace("&#38;", "&")
+
         return DtdAttribute(
             prefix=attribute.prefix,
             name=attribute.name,
             type=DtdAttributeType(attribute.type),
             default=DtdAttributeDefault(attribute.default),
-            default_value=attribute.default_value,
+            default_value=default_value,
             values=attribute.values(),
         )
 
